@@ -297,21 +297,44 @@ func (c *compiler) evalUpdateIndex(left, index, value interface{}) error {
 	rv := reflect.ValueOf(left)
 	switch rv.Kind() {
 	case reflect.Map:
-		rv.SetMapIndex(reflect.ValueOf(index), reflect.ValueOf(value))
+		if rv.IsNil() {
+			return fmt.Errorf("cannot assign to an entry of a nil map (%T)", left)
+		}
+
+		key, err := mapKeyValue(rv.Type(), index)
+		if err != nil {
+			return err
+		}
+
+		// a nil value is the zero reflect.Value, which removes the entry
+		val := reflect.ValueOf(value)
+		if elemType := rv.Type().Elem(); val.IsValid() && !val.Type().AssignableTo(elemType) {
+			return fmt.Errorf("cannot use '%v' (%s) as %s value in assignment", value, val.Type(), elemType)
+		}
+
+		rv.SetMapIndex(key, val)
 	case reflect.Array, reflect.Slice:
 		if i, ok := index.(int); ok {
-			if rv.Len()-1 < i {
+			if i < 0 || rv.Len()-1 < i {
 				err = fmt.Errorf("array index out of bounds, got index %d, while array size is %v", i, rv.Len())
 			} else {
 				elemType := reflect.TypeOf(left).Elem()
+				val := reflect.ValueOf(value)
+				if value == nil {
+					val = reflect.Zero(elemType)
+				}
+
 				if elemType.Kind() != reflect.Interface {
-					t := reflect.ValueOf(value).Type()
+					t := val.Type()
 					if elemType != t {
 						err = fmt.Errorf("cannot use '%v' (untyped %s constant) as %s value in assignment", value, t, elemType)
 					}
 				}
+				if err == nil && !rv.Index(i).CanSet() {
+					err = fmt.Errorf("cannot assign to an element of %T: it is not addressable", left)
+				}
 				if err == nil {
-					rv.Index(i).Set(reflect.ValueOf(value))
+					rv.Index(i).Set(val)
 				}
 			}
 		} else {
@@ -330,15 +353,12 @@ func (c *compiler) evalAccessIndex(left, index interface{}, node *ast.IndexExpre
 	rv := reflect.ValueOf(left)
 	switch rv.Kind() {
 	case reflect.Map:
-		mapKeyType := reflect.TypeOf(left).Key().Kind()
-		keyType := reflect.TypeOf(index).Kind()
-		if mapKeyType != reflect.Interface &&
-			keyType != mapKeyType {
-			err = fmt.Errorf("cannot use %v (%s constant) as %s value in map index", index, keyType.String(), mapKeyType.String())
-			return nil, err
+		key, kerr := mapKeyValue(rv.Type(), index)
+		if kerr != nil {
+			return nil, kerr
 		}
 
-		val := rv.MapIndex(reflect.ValueOf(index))
+		val := rv.MapIndex(key)
 		if !val.IsValid() {
 			return nil, nil
 		}
@@ -350,7 +370,7 @@ func (c *compiler) evalAccessIndex(left, index interface{}, node *ast.IndexExpre
 		}
 	case reflect.Array, reflect.Slice:
 		if i, ok := index.(int); ok {
-			if rv.Len()-1 < i {
+			if i < 0 || rv.Len()-1 < i {
 				err = fmt.Errorf("array index out of bounds, got index %d, while array size is %d", index, rv.Len())
 			} else {
 
@@ -368,6 +388,37 @@ func (c *compiler) evalAccessIndex(left, index interface{}, node *ast.IndexExpre
 	}
 
 	return returnValue, err
+}
+
+// mapKeyValue converts an evaluated index into a key usable with a map of
+// type mt, or explains why it can not be one.
+func mapKeyValue(mt reflect.Type, index interface{}) (reflect.Value, error) {
+	kt := mt.Key()
+	if index == nil {
+		switch kt.Kind() {
+		case reflect.Interface, reflect.Ptr:
+			return reflect.Zero(kt), nil
+		}
+		return reflect.Value{}, fmt.Errorf("cannot use nil as %s value in map index", kt)
+	}
+
+	key := reflect.ValueOf(index)
+	if kt.Kind() != reflect.Interface && key.Kind() != kt.Kind() {
+		return reflect.Value{}, fmt.Errorf("cannot use %v (%s constant) as %s value in map index", index, key.Kind(), kt.Kind())
+	}
+
+	if !key.Type().AssignableTo(kt) {
+		if !key.Type().ConvertibleTo(kt) {
+			return reflect.Value{}, fmt.Errorf("cannot use %v (%s) as %s value in map index", index, key.Type(), kt)
+		}
+		key = key.Convert(kt)
+	}
+
+	if !key.Comparable() {
+		return reflect.Value{}, fmt.Errorf("cannot use %v (%s) as map index: the value is not comparable", index, key.Type())
+	}
+
+	return key, nil
 }
 
 func (c *compiler) evalHashLiteral(node *ast.HashLiteral) (interface{}, error) {
